@@ -8,8 +8,10 @@ import (
 	"math/big"
 	"math/rand/v2"
 	"strings"
+	"sync"
 
 	"github.com/onflow/crypto"
+	"github.com/onflow/crypto/hash"
 
 	"verif/harness/mon"
 	"verif/harness/ref"
@@ -106,210 +108,222 @@ func C04(run *mon.Run) {
 	idPk := crypto.IdentityBLSPublicKey()
 	infSig := ref.EncodeG1(ref.E1.Infinity())
 	kinds := []string{"random", "duplicates", "inverses", "zero-sum", "with-identity-key", "single", "random"}
+	var wg sync.WaitGroup
+	sem := make(chan struct{}, 16)
 	for si := 0; si < nSets; si++ {
-		kind := kinds[si%len(kinds)]
-		n := 1 + r.IntN(maxN)
-		if si < 40 {
-			n = 1 + si%4
-		}
-		var ks []*big.Int
-		switch kind {
-		case "single":
-			ks = []*big.Int{randScalar(r)}
-		case "duplicates":
-			base := randScalar(r)
-			for i := 0; i < n; i++ {
-				if i%2 == 0 {
-					ks = append(ks, base)
-				} else {
+		wg.Add(1)
+		sem <- struct{}{}
+		go func(si int) {
+			defer wg.Done()
+			defer func() { <-sem }()
+			r := run.Rand(fmt.Sprintf("set-%d", si))
+			kind := kinds[si%len(kinds)]
+			n := 1 + r.IntN(maxN)
+			if si < 40 {
+				n = 1 + si%4
+			}
+			var ks []*big.Int
+			switch kind {
+			case "single":
+				ks = []*big.Int{randScalar(r)}
+			case "duplicates":
+				base := randScalar(r)
+				for i := 0; i < n; i++ {
+					if i%2 == 0 {
+						ks = append(ks, base)
+					} else {
+						ks = append(ks, randScalar(r))
+					}
+				}
+			case "inverses":
+				for i := 0; i < (n+1)/2; i++ {
+					k := randScalar(r)
+					ks = append(ks, k, ref.Fr.Neg(k))
+				}
+				ks = append(ks, randScalar(r))
+			case "zero-sum":
+				sum := new(big.Int)
+				for i := 0; i < n; i++ {
+					k := randScalar(r)
+					ks = append(ks, k)
+					sum = ref.Fr.Add(sum, k)
+				}
+				if sum.Sign() != 0 {
+					ks = append(ks, ref.Fr.Neg(sum))
+				}
+			default:
+				for i := 0; i < n; i++ {
 					ks = append(ks, randScalar(r))
 				}
 			}
-		case "inverses":
-			for i := 0; i < (n+1)/2; i++ {
-				k := randScalar(r)
-				ks = append(ks, k, ref.Fr.Neg(k))
-			}
-			ks = append(ks, randScalar(r))
-		case "zero-sum":
+			ks = permute(r, ks)
+			sks := make([]crypto.PrivateKey, len(ks))
+			pks := make([]crypto.PublicKey, len(ks))
 			sum := new(big.Int)
-			for i := 0; i < n; i++ {
-				k := randScalar(r)
-				ks = append(ks, k)
-				sum = ref.Fr.Add(sum, k)
-			}
-			if sum.Sign() != 0 {
-				ks = append(ks, ref.Fr.Neg(sum))
-			}
-		default:
-			for i := 0; i < n; i++ {
-				ks = append(ks, randScalar(r))
-			}
-		}
-		ks = permute(r, ks)
-		sks := make([]crypto.PrivateKey, len(ks))
-		pks := make([]crypto.PublicKey, len(ks))
-		sum := new(big.Int)
-		for i, k := range ks {
-			sks[i] = skFromInt(k)
-			pks[i] = sks[i].PublicKey()
-			if i%3 == 1 { // the same point in a differently-built object
-				if d, err := crypto.DecodePublicKey(BLS, pks[i].Encode()); err == nil {
-					pks[i] = d
-				}
-			}
-			sum = ref.Fr.Add(sum, k)
-		}
-		rep := map[string]any{"kind": kind, "scalars": scalarStrings(ks)}
-		nb := "N<=4"
-		if len(ks) > 4 {
-			nb = "N>4"
-		}
-		// --- private keys
-		var aggSk crypto.PrivateKey
-		var err error
-		if run.Guard("AggregateBLSPrivateKeys", rep, func() { aggSk, err = nestAggregateSks(r, sks) }) {
-			continue
-		}
-		run.Eval(1)
-		if err != nil || !bytes.Equal(aggSk.Encode(), ref.ScalarBytes(sum)) {
-			run.Violate("C04:private-sum:"+kind, fmt.Sprintf("AggregateBLSPrivateKeys = %x (err %v), reference sum = %x", encOrNil(aggSk), err, ref.ScalarBytes(sum)), rep)
-			continue
-		}
-		// --- public keys
-		wantPk := ref.EncodeG2(ref.E2.Mul(ref.G2Gen, sum), cv)
-		var aggPk crypto.PublicKey
-		if run.Guard("AggregateBLSPublicKeys", rep, func() { aggPk, err = nestAggregatePks(r, pks) }) {
-			continue
-		}
-		run.Eval(1)
-		if err != nil || !bytes.Equal(aggPk.Encode(), wantPk) {
-			run.Violate("C04:public-sum:"+kind, fmt.Sprintf("AggregateBLSPublicKeys = %x (err %v), reference [sum]g2 = %x", pkEncOrNil(aggPk), err, wantPk), rep)
-			continue
-		}
-		skPk := aggSk.PublicKey()
-		if !bytes.Equal(skPk.Encode(), wantPk) || !skPk.Equals(aggPk) || !aggPk.Equals(skPk) {
-			run.Violate("C04:sk-pk-consistency:"+kind, "public key of the aggregated private key differs from the aggregated public keys", rep)
-		}
-		run.Eval(1)
-		// order independence (all permutations for small N, random otherwise)
-		var perms [][]int
-		if len(ks) <= 4 {
-			perms = allPerms(len(ks))
-		} else {
-			for i := 0; i < 3; i++ {
-				perms = append(perms, r.Perm(len(ks)))
-			}
-		}
-		for _, pm := range perms {
-			pp := make([]crypto.PublicKey, len(pm))
-			ss := make([]crypto.PrivateKey, len(pm))
-			for i, j := range pm {
-				pp[i], ss[i] = pks[j], sks[j]
-			}
-			a, e1 := crypto.AggregateBLSPublicKeys(pp)
-			b, e2 := crypto.AggregateBLSPrivateKeys(ss)
-			run.Eval(2)
-			if e1 != nil || e2 != nil || !bytes.Equal(a.Encode(), wantPk) || !bytes.Equal(b.Encode(), ref.ScalarBytes(sum)) {
-				run.Violate("C04:order-dependence:"+kind, "aggregation result depends on input order", rep)
-			}
-		}
-		// with the identity key as an input
-		if kind == "with-identity-key" {
-			pos := r.IntN(len(pks) + 1)
-			withID := append(append(append([]crypto.PublicKey{}, pks[:pos]...), idPk), pks[pos:]...)
-			a, e := crypto.AggregateBLSPublicKeys(withID)
-			run.Eval(1)
-			if e != nil || !bytes.Equal(a.Encode(), wantPk) {
-				run.Violate("C04:identity-input", "aggregating with the identity key changed the sum", rep)
-			}
-		}
-		// zero-sum: identity key and identity signature
-		if sum.Sign() == 0 {
-			run.Count("zero-sum", 1)
-			infPk := make([]byte, 96)
-			infPk[0] = 0xC0
-			if !bytes.Equal(aggPk.Encode(), infPk) || !aggPk.Equals(idPk) || !idPk.Equals(aggPk) {
-				run.Violate("C04:zero-sum-not-identity", "keys summing to zero do not aggregate to the identity key", rep)
-			}
-		}
-		// --- signatures
-		msg := mon.RandBytes(r, r.IntN(64))
-		tag := fmt.Sprintf("c04-%d", si%5)
-		h := crypto.NewExpandMsgXOFKMAC128(tag)
-		H, err := hashPoint(msg, h, "kmac:"+tag)
-		if err != nil {
-			run.Violate("C04:hash-point", err.Error(), nil)
-			continue
-		}
-		sigs := make([]crypto.Signature, len(sks))
-		for i := range sks {
-			sigs[i], _ = sks[i].Sign(msg, h)
-		}
-		wantSig := ref.EncodeG1(ref.E1.Mul(H, sum))
-		var aggSig crypto.Signature
-		if run.Guard("AggregateBLSSignatures", rep, func() { aggSig, err = nestAggregateSigs(r, permute(r, sigs)) }) {
-			continue
-		}
-		run.Eval(1)
-		if err != nil || !bytes.Equal(aggSig, wantSig) {
-			run.Violate("C04:signature-sum:"+kind, fmt.Sprintf("AggregateBLSSignatures = %x (err %v), reference [sum]H = %x", []byte(aggSig), err, wantSig), rep)
-			continue
-		}
-		if sum.Sign() != 0 {
-			s2, e := aggSk.Sign(msg, h)
-			run.Eval(1)
-			if e != nil || !bytes.Equal(s2, wantSig) {
-				run.Violate("C04:agg-key-signature:"+kind, "signature by the aggregated private key differs from the aggregated signatures", rep)
-			}
-			ok, e := aggPk.Verify(aggSig, msg, h)
-			run.Eval(1)
-			if !ok || e != nil {
-				run.Violate("C04:agg-verify:"+kind, "aggregated signature does not verify under the aggregated key", rep)
-			}
-		}
-		if crypto.IsBLSSignatureIdentity(aggSig) != (sum.Sign() == 0) || (sum.Sign() == 0 && !bytes.Equal(aggSig, infSig)) {
-			run.Violate("C04:identity-signature", "IsBLSSignatureIdentity / identity encoding wrong for the aggregated signature", rep)
-		}
-		// --- Remove(Agg(A+B), B) == Agg(A)
-		if len(ks) >= 2 {
-			cut := 1 + r.IntN(len(ks)-1)
-			A, B := pks[:cut], pks[cut:]
-			sumA := new(big.Int)
-			for _, k := range ks[:cut] {
-				sumA = ref.Fr.Add(sumA, k)
-			}
-			wantA := ref.EncodeG2(ref.E2.Mul(ref.G2Gen, sumA), cv)
-			var rem crypto.PublicKey
-			if !run.Guard("RemoveBLSPublicKeys", rep, func() { rem, err = crypto.RemoveBLSPublicKeys(aggPk, permute(r, B)) }) {
-				run.Eval(1)
-				aggA, _ := crypto.AggregateBLSPublicKeys(A)
-				if err != nil || !bytes.Equal(rem.Encode(), wantA) || !rem.Equals(aggA) || !aggA.Equals(rem) {
-					run.Violate("C04:remove:"+kind, fmt.Sprintf("Remove(Agg(A+B),B) = %x (err %v), reference Agg(A) = %x", pkEncOrNil(rem), err, wantA), rep)
-				}
-				// the removed-form object (Jacobian, Z != 1) must behave like the affine one
-				if sumA.Sign() != 0 {
-					sA, _ := skFromInt(sumA).Sign(msg, h)
-					ok, e := rem.Verify(sA, msg, h)
-					run.Eval(1)
-					if !ok || e != nil {
-						run.Violate("C04:remove-verify", "key produced by Remove rejects a valid signature", rep)
+			for i, k := range ks {
+				sks[i] = skFromInt(k)
+				pks[i] = sks[i].PublicKey()
+				if i%3 == 1 { // the same point in a differently-built object
+					if d, err := crypto.DecodePublicKey(BLS, pks[i].Encode()); err == nil {
+						pks[i] = d
 					}
 				}
-				// removing everything gives the identity; removing nothing is a no-op
-				all, e := crypto.RemoveBLSPublicKeys(aggPk, pks)
-				none, e2 := crypto.RemoveBLSPublicKeys(aggPk, nil)
-				run.Eval(2)
-				if e != nil || e2 != nil || !all.Equals(idPk) || !bytes.Equal(none.Encode(), wantPk) {
-					run.Violate("C04:remove-all-or-none", "Remove of all keys is not identity or Remove of no keys changed the key", rep)
+				sum = ref.Fr.Add(sum, k)
+			}
+			rep := map[string]any{"kind": kind, "scalars": scalarStrings(ks)}
+			nb := "N<=4"
+			if len(ks) > 4 {
+				nb = "N>4"
+			}
+			// --- private keys
+			var aggSk crypto.PrivateKey
+			var err error
+			if run.Guard("AggregateBLSPrivateKeys", rep, func() { aggSk, err = nestAggregateSks(r, sks) }) {
+				return
+			}
+			run.Eval(1)
+			if err != nil || !bytes.Equal(aggSk.Encode(), ref.ScalarBytes(sum)) {
+				run.Violate("C04:private-sum:"+kind, fmt.Sprintf("AggregateBLSPrivateKeys = %x (err %v), reference sum = %x", encOrNil(aggSk), err, ref.ScalarBytes(sum)), rep)
+				return
+			}
+			// --- public keys
+			wantPk := ref.EncodeG2(ref.E2.Mul(ref.G2Gen, sum), cv)
+			var aggPk crypto.PublicKey
+			if run.Guard("AggregateBLSPublicKeys", rep, func() { aggPk, err = nestAggregatePks(r, pks) }) {
+				return
+			}
+			run.Eval(1)
+			if err != nil || !bytes.Equal(aggPk.Encode(), wantPk) {
+				run.Violate("C04:public-sum:"+kind, fmt.Sprintf("AggregateBLSPublicKeys = %x (err %v), reference [sum]g2 = %x", pkEncOrNil(aggPk), err, wantPk), rep)
+				return
+			}
+			skPk := aggSk.PublicKey()
+			if !bytes.Equal(skPk.Encode(), wantPk) || !skPk.Equals(aggPk) || !aggPk.Equals(skPk) {
+				run.Violate("C04:sk-pk-consistency:"+kind, "public key of the aggregated private key differs from the aggregated public keys", rep)
+			}
+			run.Eval(1)
+			// order independence (all permutations for small N, random otherwise)
+			var perms [][]int
+			if len(ks) <= 4 {
+				perms = allPerms(len(ks))
+			} else {
+				for i := 0; i < 3; i++ {
+					perms = append(perms, r.Perm(len(ks)))
 				}
 			}
-		}
-		run.Shape(kind + "|" + nb + "|ok")
-		if si < 3 {
-			run.Sample(rep)
-		}
+			for _, pm := range perms {
+				pp := make([]crypto.PublicKey, len(pm))
+				ss := make([]crypto.PrivateKey, len(pm))
+				for i, j := range pm {
+					pp[i], ss[i] = pks[j], sks[j]
+				}
+				a, e1 := crypto.AggregateBLSPublicKeys(pp)
+				b, e2 := crypto.AggregateBLSPrivateKeys(ss)
+				run.Eval(2)
+				if e1 != nil || e2 != nil || !bytes.Equal(a.Encode(), wantPk) || !bytes.Equal(b.Encode(), ref.ScalarBytes(sum)) {
+					run.Violate("C04:order-dependence:"+kind, "aggregation result depends on input order", rep)
+				}
+			}
+			// with the identity key as an input
+			if kind == "with-identity-key" {
+				pos := r.IntN(len(pks) + 1)
+				withID := append(append(append([]crypto.PublicKey{}, pks[:pos]...), idPk), pks[pos:]...)
+				a, e := crypto.AggregateBLSPublicKeys(withID)
+				run.Eval(1)
+				if e != nil || !bytes.Equal(a.Encode(), wantPk) {
+					run.Violate("C04:identity-input", "aggregating with the identity key changed the sum", rep)
+				}
+			}
+			// zero-sum: identity key and identity signature
+			if sum.Sign() == 0 {
+				run.Count("zero-sum", 1)
+				infPk := make([]byte, 96)
+				infPk[0] = 0xC0
+				if !bytes.Equal(aggPk.Encode(), infPk) || !aggPk.Equals(idPk) || !idPk.Equals(aggPk) {
+					run.Violate("C04:zero-sum-not-identity", "keys summing to zero do not aggregate to the identity key", rep)
+				}
+			}
+			// --- signatures
+			msg := mon.RandBytes(r, r.IntN(64))
+			tag := fmt.Sprintf("c04-%d", si%5)
+			h := crypto.NewExpandMsgXOFKMAC128(tag)
+			H, err := hashPoint(msg, h, "kmac:"+tag)
+			if err != nil {
+				run.Violate("C04:hash-point", err.Error(), nil)
+				return
+			}
+			sigs := make([]crypto.Signature, len(sks))
+			for i := range sks {
+				sigs[i], _ = sks[i].Sign(msg, h)
+			}
+			wantSig := ref.EncodeG1(ref.E1.Mul(H, sum))
+			var aggSig crypto.Signature
+			if run.Guard("AggregateBLSSignatures", rep, func() { aggSig, err = nestAggregateSigs(r, permute(r, sigs)) }) {
+				return
+			}
+			run.Eval(1)
+			if err != nil || !bytes.Equal(aggSig, wantSig) {
+				run.Violate("C04:signature-sum:"+kind, fmt.Sprintf("AggregateBLSSignatures = %x (err %v), reference [sum]H = %x", []byte(aggSig), err, wantSig), rep)
+				return
+			}
+			if sum.Sign() != 0 {
+				s2, e := aggSk.Sign(msg, h)
+				run.Eval(1)
+				if e != nil || !bytes.Equal(s2, wantSig) {
+					run.Violate("C04:agg-key-signature:"+kind, "signature by the aggregated private key differs from the aggregated signatures", rep)
+				}
+				ok, e := aggPk.Verify(aggSig, msg, h)
+				run.Eval(1)
+				if !ok || e != nil {
+					run.Violate("C04:agg-verify:"+kind, "aggregated signature does not verify under the aggregated key", rep)
+				}
+			}
+			if crypto.IsBLSSignatureIdentity(aggSig) != (sum.Sign() == 0) || (sum.Sign() == 0 && !bytes.Equal(aggSig, infSig)) {
+				run.Violate("C04:identity-signature", "IsBLSSignatureIdentity / identity encoding wrong for the aggregated signature", rep)
+			}
+			// --- Remove(Agg(A+B), B) == Agg(A)
+			if len(ks) >= 2 {
+				cut := 1 + r.IntN(len(ks)-1)
+				A, B := pks[:cut], pks[cut:]
+				sumA := new(big.Int)
+				for _, k := range ks[:cut] {
+					sumA = ref.Fr.Add(sumA, k)
+				}
+				wantA := ref.EncodeG2(ref.E2.Mul(ref.G2Gen, sumA), cv)
+				var rem crypto.PublicKey
+				if !run.Guard("RemoveBLSPublicKeys", rep, func() { rem, err = crypto.RemoveBLSPublicKeys(aggPk, permute(r, B)) }) {
+					run.Eval(1)
+					aggA, _ := crypto.AggregateBLSPublicKeys(A)
+					if err != nil || !bytes.Equal(rem.Encode(), wantA) || !rem.Equals(aggA) || !aggA.Equals(rem) {
+						run.Violate("C04:remove:"+kind, fmt.Sprintf("Remove(Agg(A+B),B) = %x (err %v), reference Agg(A) = %x", pkEncOrNil(rem), err, wantA), rep)
+					}
+					// the removed-form object (Jacobian, Z != 1) must behave like the affine one
+					if sumA.Sign() != 0 {
+						sA, _ := skFromInt(sumA).Sign(msg, h)
+						ok, e := rem.Verify(sA, msg, h)
+						run.Eval(1)
+						if !ok || e != nil {
+							run.Violate("C04:remove-verify", "key produced by Remove rejects a valid signature", rep)
+						}
+					}
+					// removing everything gives the identity; removing nothing is a no-op
+					all, e := crypto.RemoveBLSPublicKeys(aggPk, pks)
+					none, e2 := crypto.RemoveBLSPublicKeys(aggPk, nil)
+					run.Eval(2)
+					if e != nil || e2 != nil || !all.Equals(idPk) || !bytes.Equal(none.Encode(), wantPk) {
+						run.Violate("C04:remove-all-or-none", "Remove of all keys is not identity or Remove of no keys changed the key", rep)
+					} else if ok, _ := all.Verify(infSig, msg, h); ok {
+						run.Violate("C04:identity-result-not-treated-as-identity:remove", "the identity key produced by RemoveBLSPublicKeys accepts the identity signature", rep)
+					}
+				}
+			}
+			run.Shape(kind + "|" + nb + "|ok")
+			if si < 3 {
+				run.Sample(rep)
+			}
+		}(si)
 	}
+	wg.Wait()
 	// signatures on E1 outside G1: aggregation adds in E1 without a subgroup check
 	for i := 0; i < run.Pick(20, 200); i++ {
 		a := ref.NonSubgroupE1(mon.RandBytes(r, 8))
@@ -413,6 +427,10 @@ func c04Corners(run *mon.Run, r *rand.Rand, cv ref.Conv) {
 			run.Eval(1)
 			if err != nil || !bytes.Equal(got.Encode(), want) {
 				run.Violate("C04:public-corner:"+c.name, fmt.Sprintf("AggregateBLSPublicKeys(%s) = %x (err %v), reference %x", c.name, pkEncOrNil(got), err, want), rep)
+			} else if sum.Sign() == 0 {
+				if ok1, _ := got.Verify(infSig, msg, h); ok1 || !got.Equals(idPk) {
+					run.Violate("C04:identity-result-not-treated-as-identity:aggregate", fmt.Sprintf("AggregateBLSPublicKeys(%s) gives the identity point but the key accepts the identity signature", c.name), rep)
+				}
 			}
 			run.Shape("corner|pk|" + c.name)
 		}
@@ -451,6 +469,14 @@ func c04Corners(run *mon.Run, r *rand.Rand, cv ref.Conv) {
 			run.Eval(1)
 			if err != nil || !bytes.Equal(got.Encode(), want) {
 				run.Violate("C04:remove-corner:"+strings.SplitN(c.name, " ", 2)[0], fmt.Sprintf("RemoveBLSPublicKeys %s = %x (err %v), reference %x", c.name, pkEncOrNil(got), err, want), rep)
+			} else if sum.Sign() == 0 {
+				// an identity result must be an identity key in every respect
+				ok1, _ := got.Verify(infSig, msg, h)
+				ok2, _ := crypto.VerifyBLSSignatureManyMessages([]crypto.PublicKey{got}, infSig, [][]byte{msg}, []hash.Hasher{h})
+				ok3, _ := crypto.BLSVerifyPOP(got, infSig)
+				if ok1 || ok2 || ok3 || !got.Equals(idPk) {
+					run.Violate("C04:identity-result-not-treated-as-identity:remove", fmt.Sprintf("RemoveBLSPublicKeys %s gives the identity point but the key accepts the identity signature (Verify %v, ManyMessages %v, PoP %v)", c.name, ok1, ok2, ok3), rep)
+				}
 			}
 			run.Shape("corner|remove|" + c.name)
 		}
@@ -505,7 +531,20 @@ func c04Errors(run *mon.Run, r *rand.Rand) {
 	check("pks-empty", err, crypto.IsBLSAggregateEmptyListError)
 	good, _ := bsk.Sign([]byte("m"), crypto.NewExpandMsgXOFKMAC128("t"))
 	for pos := 0; pos < 3; pos++ {
-		for _, bad := range [][]byte{nil, {}, good[:47], append(append([]byte{}, good...), 0), crypto.BLSInvalidSignature(), mon.RandBytes(r, 48)[:48]} {
+		offcurve := append([]byte{}, good...)
+		for tries := 0; tries < 200; tries++ {
+			offcurve[47] ^= byte(1 + tries)
+			if sigClass(offcurve) == "offcurve" {
+				break
+			}
+		}
+		xgep := ref.P.FillBytes(make([]byte, 48))
+		xgep[0] |= 0x80
+		infGarbage := make([]byte, 48)
+		infGarbage[0], infGarbage[20] = 0xC0, 7
+		uncompressed := append([]byte{}, good...)
+		uncompressed[0] &= 0x7F
+		for _, bad := range [][]byte{nil, {}, good[:47], append(append([]byte{}, good...), 0), crypto.BLSInvalidSignature(), mon.RandBytes(r, 48)[:48], offcurve, xgep, infGarbage, uncompressed} {
 			if len(bad) == 48 && sigClass(bad) != "flags" && sigClass(bad) != "range" && sigClass(bad) != "offcurve" {
 				continue
 			}
